@@ -369,6 +369,9 @@ and step_of1 (st : string) : stepk =
     SOp (OSetModel { d with d_model = md })
   | ["SA"; spec] -> SOp (OSetAdapter (adapter_of_spec spec))
   | ["SR"; n] -> SOp (OSetRoleManager (nat_of_int (int_of_string n)))
+  (* SRP: the replacement manager arrives holding links of its own; with auto-build on (checked where the step runs) the
+     links are rebuilt from the stored rules, so the model's answer is that of a fresh manager *)
+  | ["SRP"; n; _] -> SOp (OSetRoleManager (nat_of_int (int_of_string n)))
   | ["SE"] -> SOp OSetEffector
   | ["AF"; n; u] -> SOp (OAddFunction (dec n, ufun_of u))
   | ["EE"; x] -> SOp (OEnableEnforce (b x)) | ["ES"; x] -> SOp (OEnableAutoSave (b x))
@@ -435,6 +438,8 @@ let run_eng_line (line : string) (spec : string) (ad : string) (flags : string) 
     let outs = if steps = "-" then [] else
         List.map (fun st ->
             if !poisoned then "X" else
+              let () = if String.length st > 4 && String.sub st 0 4 = "SRP:" && not !s.e_auto_build then
+                  failwith "SRP step with auto-build off: the generator must not emit it there" in
               match step_of st with
               | SFileGone b ->
                 (match !s.e_adapter with AFile _ -> gone := b; "1" | _ -> "E")
